@@ -10,6 +10,9 @@ CHECKS = {
     "C08": ("structural oracle over real patch plans on exhaustively enumerated + edit-script-derived layout pairs (tagged storage)",
             "Runs the real build_state_storage_patch_plan/apply_state_storage_patch_plan on every ordered pair of layouts up to a node bound and on edit-script pairs, and checks every clause of the property on the returned plan and on uniquely tagged migrated storage. Exhaustive within the bound, sampled beyond it; nothing is modelled.",
             "Trusts the harness' own prefix-sum layout walk and tree-inclusion checker; u64 sizes stand in for StateType.", "DESIGN.md §3 C08"),
+    "C20": ("round-trip oracle over the real FFI encoders/decoders (ffi_serde value and macro-argument paths, hand-written serde of Value and Type, TypeNodeId) on exhaustively enumerated and random values/types, with a structural comparator and refusal checks",
+            "Executes serialize_value/deserialize_value, serialize_macro_args/deserialize_macro_args and bincode over `impl Serialize/Deserialize for Value`, `for Type` and TypeNodeId of the repository on every value of depth <= 2 / width <= 2 over 14 boundary leaves (NaN payloads, -0.0, inf, subnormal, empty/non-ASCII/NUL/64 KiB strings, code), every depth-3 constructor chain, every type of depth <= 2 / width <= 2 over 9 leaves and every depth-3 type-constructor chain, plus random deeper/wider artefacts; compares what was decoded with what was encoded (floats by bits, strings by bytes, ordered record keys, u64 tags, expression/type identity) and requires an Err for values that cannot cross, in every nesting context of depth <= 2. Exhaustive within the stated bounds, sampled beyond; nothing is modelled.",
+            "Trusts the harness' structural comparator; host and plugin share the interner (as plugin/loader.rs arranges), so ids are compared by key first; bincode is the only wire format exercised; Value::ErrorV (known finding, altered to Unit) is excluded from general exploration by the quarantine errorv-leaf and replayed as a witness; Miri only on demand (tools/c20_miri.sh).", "DESIGN.md §3 C20"),
 }
 PENDING = {}
 
